@@ -29,7 +29,7 @@ m = dict(
     engines=[dict(name='vx+verus', path='/verif/vx', serves_properties=sorted(PROPS),
                   kind_free_text='mechanical extractor/annotator (Python) + Verus 0.2026.09.13 deductive verifier on the extracted real functions; contracts in /verif/contracts')],
     checks=checks,
-    notes='Contract-based deductive verification of the real code. exit 0 = all obligations of the property discharged; exit 1 = a baseline obligation fails (VIOLATION line, replay file names the obligation); exit 2 = undecided (lost anchor / unsupported construct / resource limit), never an alarm, and only for the properties that own the affected function (it is re-emitted as a contract-only stub and the rest of the unit is still verified). fix: commit 19039e0 in /repo repairs the C17 defect (see known_findings.json).',
+    notes='Contract-based deductive verification of the real code. exit 0 = all obligations of the property discharged; exit 1 = a baseline obligation fails (VIOLATION line, replay file names the obligation); exit 2 = undecided (lost anchor / unsupported construct / resource limit), never an alarm, and only for the properties that own the affected function (it is re-emitted as a contract-only stub and the rest of the unit is still verified). When a function is isolated and the property has a witness finder, the bounded search on the real crate stands in for it: a replayed failing history is reported as a VIOLATION (obligation `<fn>::isolated(bounded stand-in)`), finding none leaves the run undecided; bounded parts are never counted as discharged. fix: commit 19039e0 in /repo repairs the C17 defect (see known_findings.json).',
     not_applicable=sorted([dict(property_id=k, reason=v) for k, v in NOT_APPLICABLE.items()] +
                           [dict(property_id=k, reason='not claimed yet: the contract unit for this property is planned (DESIGN.md §8) but not built/validated in the committed tree')
                            for k in ALL if k not in PROPS and k not in NOT_APPLICABLE], key=lambda d: d['property_id']),
